@@ -1,9 +1,9 @@
 CONSTANT Repaired = TRUE
-CONSTANT AETexts = {"absent", "gzip", "gzip, br", "zstd, gzip", "gzip, deflate, br, zstd", "br", "zstd", "identity", "*", "gzip;q=0", "gzip;q=0, *", "*, gzip;q=0", "gzip, br;q=0", "br, gzip;q=0", "gzip;q=0.5, zstd", "x-gzip"}
+CONSTANT AETexts = {"absent", "gzip", "gzip, br", "zstd, gzip", "gzip, deflate, br, zstd", "br", "zstd", "identity", "*", "gzip;q=0", "gzip; q=0", "identity; q=1.0, gzip ; q=0.0", "gzip;q=0, *", "*, gzip;q=0", "gzip, br;q=0", "br, gzip;q=0", "gzip;q=0.5, zstd", "x-gzip"}
 CONSTANT Statuses = {200, 204, 206, 304, 404}
 CONSTANT PreCEs = {"none", "gzip", "br", "zstd", "deflate", "identity"}
 CONSTANT ETags = {"none", "strong", "weak"}
-CONSTANT PatIdx = {1, 2, 3, 4, 5, 6, 7, 8, 9, 10, 11, 12, 13, 14, 15}
+CONSTANT PatIdx = {1, 2, 3, 4, 5, 6, 7, 8, 9, 10, 11, 12, 13, 14, 15, 16, 17}
 CONSTANT LevelsA = {0, 1, 9}
 CONSTANT LevelsB = {0, 9}
 CONSTANT MinLens = {0, 50}
